@@ -13,6 +13,9 @@
 #include <mutex>
 #include <condition_variable>
 #include <signal.h>
+#include <set>
+#include <vector>
+#include <algorithm>
 
 using namespace verif;
 using tbox::event::Loop;
@@ -40,7 +43,10 @@ struct LoopThread {
 
 struct Ev {
   SignalEvent *ev = nullptr; int loop = 0; unsigned mask = 0; bool oneshot = false; bool enabled = false; bool alive = false;
-  int act = 0;   // what the event's callback does to the event itself: 0 nothing, 1 enable() (re-arms a one-shot event), 2 disable(), 3 disable() then enable()
+  int act = 0;   // what the event's callback does: 0 nothing, 1 enable() itself (re-arms a one-shot event), 2 disable() itself, 3 disable() then enable() itself,
+                 // 4 disable() the sibling event `tgt` (an event of the same loop that was created earlier and has act 0)
+  int tgt = -1; std::atomic<bool> tgt_alive{false};
+  int slack[kNSig] = {0};   // deliveries for which 0 or 1 callback is acceptable (the event was disabled by a sibling's callback during that very dispatch)
   std::atomic<int> act_failed{0};
   std::atomic<int> calls[kNSig]; std::atomic<int> wrong_thread{0}, wrong_signo{0};
   int expect[kNSig] = {0};
@@ -90,7 +96,7 @@ std::string run(const Scenario &s, CaseInfo &info) {
   std::string err; char buf[300];
   int sentinel_expect[kNSig] = {0};
   bool nt_two_loops_one_sig = false, nt_resubscribe_after_zero = false; bool went_zero[kNSig] = {false};
-  int raises = 0, skipped_raises = 0, oneshot_fired = 0, nt_batches = 0, nt_bursts = 0, nt_rearm = 0, nt_self_disable = 0;
+  int raises = 0, skipped_raises = 0, oneshot_fired = 0, nt_batches = 0, nt_bursts = 0, nt_rearm = 0, nt_self_disable = 0, nt_sibling = 0, nt_sibling_in_dispatch = 0;
 
   auto subs_of = [&](int si) { int n = 0; for (int e = 0; e < nev; ++e) if (evs[e].alive && evs[e].enabled && (evs[e].mask >> si & 1)) n++; return n; };
   auto check_disposition = [&](const char *after) {
@@ -106,8 +112,8 @@ std::string run(const Scenario &s, CaseInfo &info) {
       if (evs[e].wrong_thread.load()) { snprintf(buf, sizeof buf, "after %s: event %d got a callback on a thread other than its loop's thread", after, e); err = buf; break; }
       if (evs[e].act_failed.load()) { snprintf(buf, sizeof buf, "after %s: enable()/disable() called by event %d on itself inside its callback returned false", after, e); err = buf; break; }
       if (evs[e].wrong_signo.load()) { snprintf(buf, sizeof buf, "after %s: event %d got a callback for a signal it never subscribed", after, e); err = buf; break; }
-      for (int i = 0; i < kNSig; ++i) if (evs[e].calls[i].load() != evs[e].expect[i]) {
-        snprintf(buf, sizeof buf, "after %s: event %d (loop %d, %s, mask 0x%x) has %d callbacks for signal #%d, expected %d", after, e, evs[e].loop, evs[e].oneshot ? "one-shot" : "persistent", evs[e].mask, evs[e].calls[i].load(), i, evs[e].expect[i]); err = buf; break; }
+      for (int i = 0; i < kNSig; ++i) { int got = evs[e].calls[i].load(); if (got > evs[e].expect[i] || got < evs[e].expect[i] - evs[e].slack[i]) {
+        snprintf(buf, sizeof buf, "after %s: event %d (loop %d, %s, mask 0x%x) has %d callbacks for signal #%d, expected %d%s", after, e, evs[e].loop, evs[e].oneshot ? "one-shot" : "persistent", evs[e].mask, got, i, evs[e].expect[i], evs[e].slack[i] ? " (minus those of deliveries during which a sibling's callback disabled it)" : ""); err = buf; break; } }
     }
     for (int i = 0; i < kNSig && err.empty(); ++i) if (g_sentinel_calls[i].load() != sentinel_expect[i]) {
       snprintf(buf, sizeof buf, "after %s: the handler installed before the first subscription ran %d time(s) for signal #%d, expected %d (original kind %d)", after, g_sentinel_calls[i].load(), i, sentinel_expect[i], orig_kind[i]); err = buf; }
@@ -120,18 +126,23 @@ std::string run(const Scenario &s, CaseInfo &info) {
       case NEW: {
         if (nev >= kMaxEvents) break;
         Ev &E = evs[nev]; E.loop = (int)op.in(0, 0, nloops - 1); E.mask = (unsigned)op.in(1, 1, (1 << kNSig) - 1); E.oneshot = op.in(2, 0, 3) == 0; E.alive = true; E.enabled = false;
-        { static const int kAct[8] = {0, 0, 0, 0, 1, 2, 3, 1}; E.act = kAct[op.in(3, 0, 7)]; }
-        int e = nev; LoopThread *L = &lt[E.loop]; Ev *Ep = &E;
-        L->call([&, e, L, Ep] {
+        { static const int kAct[10] = {0, 0, 0, 0, 1, 2, 3, 1, 4, 4}; E.act = kAct[op.in(3, 0, 9)]; }
+        if (E.act == 4) {   // pick the sibling: an alive event of the same loop with act 0
+          std::vector<int> cand; for (int j = 0; j < nev; ++j) if (evs[j].alive && evs[j].loop == E.loop && evs[j].act == 0) cand.push_back(j);
+          if (cand.empty()) E.act = 0; else { E.tgt = cand[op.in(4, 0, (int64_t)cand.size() - 1)]; E.tgt_alive = true; }
+        }
+        int e = nev; LoopThread *L = &lt[E.loop]; Ev *Ep = &E; Ev *Tp = E.tgt >= 0 ? &evs[E.tgt] : nullptr;
+        L->call([&, e, L, Ep, Tp] {
           Ep->ev = L->loop->newSignalEvent("c04");
           std::set<int> ss; for (int i = 0; i < kNSig; ++i) if (Ep->mask >> i & 1) ss.insert(sig_of(i));
           if (ss.size() == 1 && (e & 1)) Ep->ev->initialize(*ss.begin(), Ep->oneshot ? tbox::event::Event::Mode::kOneshot : tbox::event::Event::Mode::kPersist);
           else Ep->ev->initialize(ss, Ep->oneshot ? tbox::event::Event::Mode::kOneshot : tbox::event::Event::Mode::kPersist);
-          Ep->ev->setCallback([Ep, L](int signo) {
+          Ep->ev->setCallback([Ep, L, Tp](int signo) {
             if (std::this_thread::get_id() != L->tid) Ep->wrong_thread++;
             bool found = false; for (int i = 0; i < kNSig; ++i) if (sig_of(i) == signo && (Ep->mask >> i & 1)) { Ep->calls[i]++; found = true; }
             if (!found) Ep->wrong_signo++;
             if (Ep->act == 2 || Ep->act == 3) { if (!Ep->ev->disable()) Ep->act_failed++; }
+            if (Ep->act == 4 && Ep->tgt_alive.load() && Tp->ev) { if (!Tp->ev->disable()) Ep->act_failed++; }
             if (Ep->act == 1 || Ep->act == 3) { if (!Ep->ev->enable()) Ep->act_failed++; }
           });
         });
@@ -146,7 +157,7 @@ std::string run(const Scenario &s, CaseInfo &info) {
           if (E.ev) en_after = E.ev->isEnabled();
         });
         if (op.code == ENABLE) E.enabled = true; else E.enabled = false;
-        if (op.code == DESTROY) E.alive = false;
+        if (op.code == DESTROY) { E.alive = false; for (int j = 0; j < nev; ++j) if (evs[j].tgt == e) evs[j].tgt_alive = false; }
         if (!ok) { snprintf(buf, sizeof buf, "op %zu: %s of event %d returned false", k, op.code == ENABLE ? "enable()" : "disable()", e); err = buf; break; }
         if (E.alive && en_after != E.enabled) { snprintf(buf, sizeof buf, "op %zu: isEnabled() of event %d is %d, model says %d", k, e, (int)en_after, (int)E.enabled); err = buf; break; }
         for (int i = 0; i < kNSig; ++i) if ((E.mask >> i & 1) && subs_of(i) == 0) went_zero[i] = true;
@@ -204,14 +215,25 @@ std::string run(const Scenario &s, CaseInfo &info) {
           if (subs_at_start[si] == 0 && orig_kind[si] == 0) { skipped_raises++; continue; }     // default action would kill the process
           // expectations: deliveries are processed per loop in the order they were raised
           bool loops_seen[kMaxLoops] = {false}; int nl = 0;
+          std::vector<int> hit;   // events that take part in this delivery
           if (subs_at_start[si] > 0)
             for (int e = 0; e < nev; ++e) if (evs[e].alive && evs[e].enabled && (evs[e].mask >> si & 1)) {
+              hit.push_back(e);
               evs[e].expect[si]++; if (!loops_seen[evs[e].loop]) { loops_seen[evs[e].loop] = true; nl++; }
               if (evs[e].oneshot) { evs[e].enabled = false; oneshot_fired++; }
               // then its callback runs and may change the event's own subscription
               if (evs[e].act == 2) { evs[e].enabled = false; nt_self_disable++; }
               if (evs[e].act == 1 || evs[e].act == 3) { evs[e].enabled = true; if (evs[e].oneshot) nt_rearm++; }
             }
+          // callbacks that disable a sibling: the sibling ends up disabled; if it takes part in this very delivery it gets its
+          // callback or not, depending on the (unspecified) order in which the loop serves the subscribers
+          { std::set<int> slacked;
+            for (int e : hit) if (evs[e].act == 4 && evs[e].tgt_alive.load() && evs[evs[e].tgt].alive) {
+              int b = evs[e].tgt; bool takes_part = std::find(hit.begin(), hit.end(), b) != hit.end();
+              if (takes_part && !slacked.count(b)) { evs[b].slack[si]++; slacked.insert(b); nt_sibling_in_dispatch++; }
+              if (evs[b].enabled || takes_part) nt_sibling++;
+              evs[b].enabled = false;
+            } }
           if (nl >= 2) nt_two_loops_one_sig = true;
           if (orig_kind[si] >= 2) sentinel_expect[si]++;
           raises++; last_si = si;
@@ -222,7 +244,7 @@ std::string run(const Scenario &s, CaseInfo &info) {
         int si = last_si;
         sync_loops();
         int64_t deadline = steady_ms() + 3000;
-        auto settled = [&] { for (int e = 0; e < nev; ++e) for (int i = 0; i < kNSig; ++i) if (evs[e].calls[i].load() < evs[e].expect[i]) return false; return g_sentinel_calls[si].load() >= sentinel_expect[si]; };
+        auto settled = [&] { for (int e = 0; e < nev; ++e) for (int i = 0; i < kNSig; ++i) if (evs[e].calls[i].load() < evs[e].expect[i] - evs[e].slack[i]) return false; return g_sentinel_calls[si].load() >= sentinel_expect[si]; };
         while (!settled() && steady_ms() < deadline) { std::this_thread::sleep_for(std::chrono::microseconds(200)); }
         sync_loops();
         check_counts(op.code == RAISE ? "raise" : "burst of raises");
@@ -251,6 +273,8 @@ std::string run(const Scenario &s, CaseInfo &info) {
   info.cls_if(nt_bursts > 0, "burst_of_deliveries_while_loops_busy");
   info.cls_if(nt_rearm > 0, "oneshot_rearmed_in_its_own_callback");
   info.cls_if(nt_self_disable > 0, "event_disabled_itself_in_its_callback");
+  info.cls_if(nt_sibling > 0, "callback_disabled_a_sibling_event");
+  info.cls_if(nt_sibling_in_dispatch > 0, "sibling_disabled_during_the_dispatch_it_takes_part_in");
   info.nontrivial = raises > 0 && nt_two_loops_one_sig && nt_resubscribe_after_zero;
   return "";
 }
@@ -258,7 +282,7 @@ std::string run(const Scenario &s, CaseInfo &info) {
 SubDef def = [] {
   SubDef d; d.name = "signals";
   d.op_names = {"cfg", "new", "enable", "disable", "destroy", "raise", "batch", "burst"};
-  d.op_arity = {7, 4, 1, 1, 1, 1, 9, 8};
+  d.op_arity = {7, 5, 1, 1, 1, 1, 9, 8};
   d.nt_rule = "history with a delivery that reaches subscribers in >= 2 loops and >= 1 unsubscribe-to-zero of a signal followed by a re-subscription of it";
   d.run = run;
 #ifndef VERIF_ENGINE_FUZZ
@@ -266,7 +290,7 @@ SubDef def = [] {
     auto ev = range(0, kMaxEvents - 1);
     auto mask = rc::gen::weightedOneOf<int64_t>({{3, oneOfValues({1, 2, 4, 3})}, {2, range(1, 63)}});
     auto opg = rc::gen::weightedOneOf<Op>({
-      {4, mkop(NEW, {range(0, kMaxLoops - 1), mask, range(0, 3), range(0, 7)})},
+      {4, mkop(NEW, {range(0, kMaxLoops - 1), mask, range(0, 3), range(0, 9), range(0, kMaxEvents - 1)})},
       {6, mkop(ENABLE, {ev})},
       {4, mkop(DISABLE, {ev})},
       {1, mkop(DESTROY, {ev})},
@@ -275,7 +299,7 @@ SubDef def = [] {
       {2, mkop(BURST, {range(2, 7), range(0, 2), range(0, 2), range(0, 2), range(0, 2), range(0, 2), range(0, kNSig - 1), range(0, kNSig - 1)})},
     });
     auto cfg = mkop(CFG, {rc::gen::weightedOneOf<int64_t>({{1, rc::gen::just<int64_t>(1)}, {3, range(2, kMaxLoops)}}), range(0, 4), range(0, 4), range(0, 4), range(0, 4), range(0, 4), range(0, 4)});
-    auto mk = mkop(NEW, {range(0, kMaxLoops - 1), mask, range(0, 3), range(0, 7)});
+    auto mk = mkop(NEW, {range(0, kMaxLoops - 1), mask, range(0, 3), range(0, 9), range(0, kMaxEvents - 1)});
     auto en = mkop(ENABLE, {ev});
     return scenarioOf(fixedOps({cfg, mk, mk, mk, mk, en, en, en}), opsOf(opg));
   };
